@@ -184,6 +184,19 @@ example : Schemas.welcome.Valid oracles exWelcome := by decide +kernel
 example : Schemas.welcome.parse oracles (Schemas.welcome.marshal exWelcome) = .ok exWelcome :=
   parse_marshal _ _ (schemas_wf _ (by simp [all25])) _ (by decide +kernel)
 
+/-- WELCOME with an `authmethod` but no `authrole` survives the round trip (before the repair of the copy/paste slip
+`if self.authrole: details["authmethod"] = …` in `Welcome.marshal` the method was lost, and a WELCOME with an `authrole`
+but no `authmethod` was written with `"authmethod": null`) -/
+def exWelcomeMethodOnly : Msg :=
+  [(cs!"session", .int 1), (cs!"realm", .str cs!"realm1"), (cs!"authid", .str cs!"joe"),
+   (cs!"authrole", .null), (cs!"authmethod", .str cs!"ticket"), (cs!"authprovider", .null),
+   (cs!"authextra", .null), (cs!"resumed", .null), (cs!"resumable", .null), (cs!"resume_token", .null),
+   (cs!"roles", .dict [(cs!"broker", .dict [])]), (cs!"custom", .dict [])]
+
+theorem welcome_authmethod_without_authrole :
+    Schemas.welcome.parse oracles (Schemas.welcome.marshal exWelcomeMethodOnly) = .ok exWelcomeMethodOnly :=
+  parse_marshal _ _ (schemas_wf _ (by simp [all25])) _ (by decide +kernel)
+
 /-- values the hypotheses exclude really are lost by today's `marshal` (the model exhibits it): GOODBYE with
 `resumable = False` comes back with `resumable = None` -/
 theorem falsy_option_dropped :
